@@ -9,6 +9,7 @@
 -/
 import TdVerif.Lemmas.C16Stack
 import TdVerif.Lemmas.C16Resolve
+import TdVerif.Lemmas.C16Tolist
 
 namespace TdVerif.Props.C16
 open TdVerif.C16 TdVerif.C16.NT
@@ -93,6 +94,25 @@ theorem index_no_invention (r r' : NT O) (rix : List RIx) (hw : wf r = true) (hv
   cases hs : srcCoord rix c' with
   | none => simp [hs] at ho
   | some c => exact ⟨c, by simpa [hs] using ho⟩
+
+
+/-! ### unbind, tolist -/
+
+/-- `unbind_commutes`: `unbind(dim)` yields as many pieces as the dim is long, each well formed with the shape minus
+`dim`, and piece `i` holds at `c` what the entry holds at `c` with `i` inserted at `dim` — also when the pieces have to be
+re-assembled from the members' own pieces (`zip(*…)` + re-stack at the shifted stack dim). -/
+theorem unbind_commutes (r : NT O) (dim : Nat) (hw : wf r = true) (hd : dim < (shape r).length) :
+    (unbind r dim).length = (shape r).getD dim 0
+    ∧ (∀ p ∈ unbind r dim, wf p = true ∧ shape p = (shape r).eraseIdx dim)
+    ∧ ∀ (i : Nat) (c : List Nat), c.length + 1 = (shape r).length →
+        ((unbind r dim)[i]?).bind (fun p => getAt p c) = getAt r (c.insertIdx dim i) :=
+  unbind_spec r dim hw hd
+
+/-- `tolist_row_major`: `tolist()` is the nested list of the payloads in batch order, one nesting level per batch
+dim, whatever the representation (`dflt` is never read: every coordinate of the shape holds an object) -/
+theorem tolist_row_major (dflt : O) (r : NT O) (hw : wf r = true) :
+    tolist r = nestOf (getAt r) dflt (shape r) [] :=
+  tolistN_spec dflt (shape r).length r hw rfl
 
 -- non-vacuity: a stack of a shared row and a promoted row, indexed by `[:, 1]`, `[None]`, `[[1,0]]`
 example : wf (.stack [.shared "y" [3], .stack [.shared "x" [], .shared "x" [], .shared "z" []] 0] 0 : NT String) = true := by
